@@ -64,6 +64,7 @@ fn main() {
             "C06" => nqverif::c06::replay(case),
             "C07" => nqverif::c07::replay(case),
             "C08" => nqverif::c08::replay(case),
+            "C09" => nqverif::c09::replay(case),
             "C10" => nqverif::c10::replay(case),
             "C11" => nqverif::c11::replay(case),
             "C13" => nqverif::c13::replay(case),
@@ -84,6 +85,7 @@ fn main() {
         "C06" => nqverif::c06::run(&args),
         "C07" => nqverif::c07::run(&args),
         "C08" => nqverif::c08::run(&args),
+        "C09" => nqverif::c09::run(&args),
         "C10" => nqverif::c10::run(&args),
         "C11" => nqverif::c11::run(&args),
         "C13" => nqverif::c13::run(&args),
